@@ -13,7 +13,8 @@ DRIVER = os.path.join(LEAN, ".lake", "build", "bin", "driver")
 
 
 def run_driver(ops: list[list[str]]) -> list[str]:
-    data = "".join("\t".join(f) + "\n" for f in ops)
+    # `op@carrier` (text handed over as a str-subclass object) is the same operation for the model
+    data = "".join("\t".join([f[0].split("@", 1)[0]] + list(f[1:])) + "\n" for f in ops)
     with tempfile.TemporaryFile("w+") as fin:
         fin.write(data)
         fin.seek(0)
